@@ -72,7 +72,7 @@ Ltac below_tac :=
         | eapply below_mono; [eassumption | lia]
         | apply below_seq; autorewrite with len; lia ].
 Ltac pre_tac :=
-  unfold pre; repeat split;
+  unfold pre; refine (conj _ (conj _ (conj _ (conj _ _))));
   [ first [assumption | apply seq_NoDup] | below_tac | below_tac
   | first [left; reflexivity | right; dis_tac] | len_tac ].
 Ltac nxt := repeat match goal with N : next ?hn = _ |- _ => is_var hn; rewrite N in * end.
